@@ -564,3 +564,61 @@ func init() {
 			Opts: vrt.Options{Delay: true}, Run: bReclaim(v.n, v.cd, v.closes, v.fixed), Check: reclaimCheck(policy)})
 	}
 }
+
+// B-range: P: Put(1,2); Put(3) ∥ C: Buffer.Range(fn) then a Get on the same consumer.
+// fn is one of: always true, false at index i, panic at index i (i in {0,1}) - an enumerated choice.
+func bRange() {
+	h := newBufH(0, nil)
+	c := h.newC()
+	variant := vrt.Choose(5, 0)
+	vrt.Log("variant", variant)
+	var wg sync.WaitGroup
+	wg.Add(2)
+	go func() {
+		defer wg.Done()
+		vrt.Log("putcall", 2)
+		h.b.Put(nil, 1, 2)
+		vrt.Log("putret", 2)
+		vrt.Log("putcall", 3)
+		h.b.Put(nil, 3)
+		vrt.Log("putret", 3)
+	}()
+	go func() {
+		defer wg.Done()
+		func() {
+			defer func() {
+				if r := recover(); r != nil {
+					vrt.Log("range-ret", "panic")
+				}
+			}()
+			vrt.Log("range-call")
+			err := h.b.Range(nil, c.c, func(index int, value interface{}) bool {
+				vrt.Log("range-fn", index, tok(value))
+				switch {
+				case variant == 1 && index == 0, variant == 2 && index == 1:
+					return false
+				case variant == 3 && index == 0, variant == 4 && index == 1:
+					panic("scripted panic")
+				}
+				return true
+			})
+			vrt.Log("range-ret", "err", errStr(err))
+		}()
+	}()
+	wg.Wait()
+	// everything is put by now; the next read shows where the consumer stands
+	if d, ok := h.b.Diff(c.c); ok && d > 0 {
+		v, err := c.c.Get(nil)
+		vrt.Log("next-get", tok(v), errStr(err))
+		c.c.Rollback()
+	} else {
+		vrt.Log("next-get", 0, "nothing left")
+	}
+	h.b.Close()
+}
+
+func init() {
+	vrt.Register(&vrt.Scenario{Name: "B-range", Props: []string{"C02", "C11:race", "C12:goroutine-leak"}, Quick: 2, Thorough: 3,
+		Desc: "Buffer.Range on a dedicated consumer racing two Puts; callback always true / false at i / panicking at i; then a Get on the same consumer",
+		Opts: vrt.Options{Delay: true}, Run: bRange, Check: bufRangeCheck})
+}
